@@ -373,6 +373,22 @@ def _mc_step_transition(e, new_hash, wants_defer):
     return wrap_bool(ok)
 
 
+def _mc_wakes_consumers(e):
+    """C10 (no lost wake-up): in the iteration that turns an unchanged OUTDATED output back to BUILT, the consumers
+    of that file are marked pending afterwards (this is what clears the `deferred` flag of a consumer that was
+    parked on the file while it was OUTDATED)."""
+    c = cur()
+    loop = c.data["loops"][1]
+    evs = c.trace[loop.head_index:]
+    ok = True
+    for k, ev in enumerate(evs):
+        if ev.kind == "file.set_state":
+            ok = ok and any(x.kind == "mark_consuming_steps_pending" and x.file is ev.file for x in evs[k + 1:])
+    marks = [x for x in evs if x.kind == "mark_consuming_steps_pending"]
+    sets = [x for x in evs if x.kind == "file.set_state"]
+    return wrap_bool(tm.mk_bool(bool(ok) and len(marks) == len(sets)))
+
+
 @contract("stepup/core/step.py::Step.mark_completed", props=["C10", "C03", "C04", "C09"])
 class mark_completed:
     args = dict(self=_mc_step, new_hash=ty.Opt(ty.Opaque("StepHash")), wants_defer=ty.Bool)
@@ -380,7 +396,7 @@ class mark_completed:
     finish = _mc_finish
     result = ty.Bool
     modifies = []
-    loops = {0: LoopSpec(), 1: LoopSpec()}
+    loops = {0: LoopSpec(), 1: LoopSpec(step_post=_mc_wakes_consumers)}
 
 
 @structural("C10/sql/defer_count_reset", props=["C10"],
